@@ -685,9 +685,10 @@ func padComment(str string, pads ...string) string {
 		pad = strings.Join(pads, "")
 	}
 	for i, line := range lines {
-		// "// +build …" is a build constraint wherever it stands: gofmt moves it to the top of the file
-		if strings.HasPrefix(line, "+build") {
-			lines[i] = "[+]" + strings.TrimPrefix(line, "+")
+		// "// +build …" is a build constraint wherever it stands and however it is indented: gofmt moves
+		// it to the top of the file
+		if text := strings.TrimLeft(line, " \t"); strings.HasPrefix(text, "+build") {
+			lines[i] = line[:len(line)-len(text)] + "[+]" + strings.TrimPrefix(text, "+")
 		}
 	}
 	return (strings.Join(lines, "\n//"+pad))
